@@ -2206,8 +2206,10 @@ func (ev *Evaluator) doCall(st *State, fr *Frame, c *ssa.CallCommon, instr ssa.I
 		}
 		// a call bound through a collaborator seam is the adapter the restructuring introduced: part of the caller
 		if !inline && devirt && ev.P.InScope[callee] {
-			// ... unless it is a function the upstream tree already has: then it is an ordinary call
-			if _, known := refParamNames(ev.P.CanonFuncName(callee)); !known {
+			// ... unless it is a function the upstream tree already has: then it is an ordinary call; and unless it is one
+			// of the observations the rules speak about by name (the clock, the stopwatch, the counters): those stay the
+			// named reads they are, whatever the implementing type is called
+			if _, known := refParamNames(ev.P.CanonFuncName(callee)); !known && !pureNames[callee.Name()] && !protocolNames[canonName(callee)] {
 				inline = true
 			}
 		}
